@@ -32,6 +32,13 @@ Proof. exact parse_encode. Qed.
 Theorem C18_query_first_value : forall l name, Forall bytes_pair l ->
   query_get (encode_pairs l) name = match find (fun kv => str_eqb (fst kv) name) l with Some kv => snd kv | None => [] end.
 Proof. exact query_get_encoded. Qed.
+(* end to end for a name that was not written: the accessor answers with the caller's default, or "" *)
+Theorem C18_query_absent_gives_default : forall l name d, Forall bytes_pair l ->
+  find (fun kv => str_eqb (fst kv) name) l = None ->
+  query (query_get (encode_pairs l) name) d = match d with Some x => x | None => [] end.
+Proof.
+  intros l name d H F. rewrite (query_get_encoded l name H), F. unfold query. apply with_default_absent.
+Qed.
 (* QueryStrings sees every value written for its name, in order *)
 Theorem C18_query_all_values : forall l name, Forall bytes_pair l ->
   query_values (encode_pairs l) name = map snd (filter (fun kv => str_eqb (fst kv) name) l).
